@@ -7,11 +7,15 @@ ASSUMPTIONS = [
     "identity on values that are not text-like.",
     "Builtin layouts do not mix (a subclass of one builtin family has no unrelated builtin ancestor); re.compile(p) returns "
     "p for an already compiled pattern; None is the only instance of NoneType.",
-    "Declared Literal values are pairwise distinct under == (typing de-duplicates them).",
+    "Declared Literal values are distinct by (class, value) - typing de-duplicates them that way; two may be == when their classes "
+    "differ (Literal[True, 1]). (An earlier version assumed distinctness under == alone; see DESIGN 11.5.)",
     "Composite step: C05's member-wise clause + this property for the members (induction hypothesis) + builtin "
     "constructors rebuilding an equal container from the value's own elements give `same`; lifting over U and depth is "
     "meta-lemma M2/M3 (paper). Idempotence is the instance v := unmarshal(T, x) with C03's conformance.",
 ]
+
+
+WITNESSES = {"C13-private-dataclass-field": c13_concrete.private_field_witness}
 
 
 def searcher(ob):
@@ -43,5 +47,6 @@ def main(tier, seed):
                             "rule": "every pool (type, value) + str-mixin enums, JSON-looking strings, 2-char strings, null-looking Optional values, extreme timedeltas; idempotence for every accepted generic input"})
         for f in fails:
             chk.violation("bounded-cross-check :: " + f["type"], {"found": True, "kind": "c13-case", "case": f}, True)
+    chk.known_witness("C13-private-dataclass-field", c13_concrete.private_field_witness, "a dataclass instance whose private field differs from its default")
     chk.resolve_failures(searcher)
     return chk.finish()
